@@ -418,7 +418,7 @@ def thread_build(seed, i, tier):
     fresh = Fresh()
     fam = G.pick(rs, ns.buffered_families)
     kind = G.pick(rs, ["dict", "list"])
-    cfg = {"prop": ID, "family": fam, "kind": kind, "wc": rs.random() < 0.5, "threading": True, "oracles": [], "uuid_seed": rs.getrandbits(32), "opcode": False}
+    cfg = {"prop": ID, "family": fam, "kind": kind, "wc": rs.random() < 0.5, "threading": True, "oracles": [], "uuid_seed": rs.getrandbits(32), "opcode": rs.random() < 0.06}
     init = _thr.init_content(kind, fresh)
     pre = [{"t": "new_res", "family": fam, "kind": kind, "init": init}, {"t": "new_obj", "rid": 0, "wc": cfg["wc"]}, {"t": "new_obj", "rid": 0, "wc": cfg["wc"]}]
     v0, v1 = fresh.int(), fresh.int()
@@ -428,6 +428,8 @@ def thread_build(seed, i, tier):
     else:
         op0 = ["append", [v0]] if rs.random() < 0.85 else ["len", []]
         op1 = {"h": 1, "name": "append", "args": [v1]}
+    # (the other writer is never buffered itself: two per-object contexts on one file that exit at different times are
+    #  objects in different buffering states, which the library documents as unsupported - outside every property)
     progs = [[{"h": 0, "name": "$buffered_block", "args": op0}], [op1]]
     r = rs.random()
     if r < 0.3:
@@ -459,8 +461,8 @@ def thread_judge(payload, out):
         return {"kind": "harness_thread_error", "msg": "a thread did not record its operation"}
     final = out["final"][0]
     hist = _thr.describe_history(out) + f" | final={jsonable(final)!r}"
-    if t1.get("exc"):
-        return {"kind": "unexpected_error", "msg": f"the unbuffered writer raised {t1['exc']}: {hist}"}
+    if t1.get("exc") and not (payload["progs"][1][0]["name"] == "$buffered_block" and t1["exc"] == "MetadataError"):
+        return {"kind": "unexpected_error", "msg": f"the other writer raised {t1['exc']}: {hist}"}
     v0, v1, kind = payload["v0"], payload["v1"], payload["kind"]
 
     def has(v, key):
@@ -475,6 +477,9 @@ def thread_judge(payload, out):
                 f"object of the same class, and {'raised ' + t0['exc'] + ' but the other writer\'s content is not intact' if t0.get('exc') else 'raised nothing'}: {hist}"}
     if not t0.get("exc") and t0_wrote and not has(v0, "w0"):
         return {"kind": "lost_buffered_write", "msg": f"the buffered block returned normally but its write is not in the file: {hist}"}
+    bad = {k: v for k, v in out.get("bufsize", {}).items() if v}
+    if bad:
+        return {"kind": "buffer_not_empty", "msg": f"every context has exited, yet the reported buffer size is {bad}: {hist}"}
     return None
 
 
